@@ -33,7 +33,9 @@ ExposeTab == <<
   E(5353, 0,    "UDP", TRUE,  <<>>),                  \* 10 global UDP
   E(5353, 53,   "UDP", TRUE,  <<>>),                  \* 11 global UDP as 53
   E(80,   0,    "UDP", TRUE,  <<>>),                  \* 12 global UDP 80 (not an ingress: not TCP)
-  E(53,   0,    "UDP", FALSE, <<>>) >>                \* 13 local UDP
+  E(53,   0,    "UDP", FALSE, <<>>),                  \* 13 local UDP
+  E(5432, 0,    "TCP", FALSE, <<>>),                  \* 14 local TCP with the number of 7's global port
+  E(8443, 0,    "TCP", TRUE,  <<>>) >>                \* 15 a second global TCP port
 ExposeKinds == KRange(ExposeTab)
 
 \* cpu in millicpu, memory and storage in bytes; all below 2^30 (TLC integers)
@@ -84,7 +86,10 @@ GroupTab == << <<Web(<<>>, 1, SizeTab[1])>>,
                <<Db(<<ExposeTab[10], ExposeTab[6]>>, 1, SizeTab[1])>>,
                <<Web(<<ExposeTab[11], ExposeTab[5]>>, 1, SizeTab[3]), Db(<<>>, 2, SizeTab[1])>>,
                <<Web(<<ExposeTab[6], ExposeTab[4]>>, 1, SizeTab[1])>>,
-               <<Web(<<ExposeTab[9]>>, 1, SizeTab[4]), Db(<<ExposeTab[2]>>, 1, SizeTab[4])>> >>
+               <<Web(<<ExposeTab[9]>>, 1, SizeTab[4]), Db(<<ExposeTab[2]>>, 1, SizeTab[4])>>,
+               \* both services open node ports; web also has, internal only, the port number db exposes globally
+               <<Web(<<ExposeTab[15], ExposeTab[14]>>, 1, SizeTab[1]), Db(<<ExposeTab[7]>>, 1, SizeTab[2])>>,
+               <<Web(<<ExposeTab[10]>>, 2, SizeTab[2]), Db(<<ExposeTab[8], ExposeTab[15]>>, 1, SizeTab[1])>> >>
 GroupsD == {GroupTab[i] : i \in 1..MaxGroupsD}
 SliceD == {In("D", BgL, <<R(g1, BgSettings(TRUE, BgStatic)), R(g2, Settings(2, 1, 3, TRUE, BgRuntime, BgStatic))>>) : g1 \in GroupsD, g2 \in GroupsD}
      \cup {In("D", BgL, <<R(g, BgSettings(n1, BgStatic)), R(g, Settings(1, 2, 1, n2, 3, ~BgStatic))>>) : g \in GroupsD, n1 \in BOOLEAN, n2 \in BOOLEAN}
